@@ -18,7 +18,15 @@ def read_edges(path):
         for line in fh:
             if line.startswith('"SCRIPT '):
                 s = json.loads(line)
-                edges.append(json.loads(s[7:]))
+                e = json.loads(s[7:])
+                edges.append(e)
+                # per-action counts of the generated transitions (vacuity review: an operation / outcome class that never
+                # occurs in the bounded model was never exercised)
+                if e.get("h"):
+                    a = e["h"][-1]
+                    k = "%s:%s" % (a.get("op"), a.get("out"))
+                    oc = stats.setdefault("op_counts", {})
+                    oc[k] = oc.get(k, 0) + 1
             elif "states generated" in line and "distinct" in line and line[0].isdigit():
                 w = line.split()
                 stats["transitions"] = int(w[0])
@@ -43,7 +51,8 @@ def to_op(a):
     return op
 
 
-def scripts_from_edges(edges):
+def scripts_from_edges(edges, conv=None):
+    conv = conv or to_op
     """Returns a list of scripts; a script is a list of driver ops."""
     def key(h):
         return tuple(json.dumps(x, sort_keys=True) for x in h)
@@ -72,16 +81,16 @@ def scripts_from_edges(edges):
             pk = k[:i]
             if pk in loops and pk not in used:
                 used.add(pk)
-                ops.extend(to_op(a) for a in loops[pk].values())
+                ops.extend(conv(a) for a in loops[pk].values())
             if i < len(k):
-                ops.append(to_op(h[i]))
+                ops.append(conv(h[i]))
         scripts.append(ops)
     for pk, ls in sorted(loops.items()):
         if pk in used:
             continue
         # the prefix is itself a recorded (changing) path or the empty path
         pre = [] if not pk else [json.loads(x) for x in pk]
-        ops = [to_op(a) for a in pre] + [to_op(a) for a in ls.values()]
+        ops = [conv(a) for a in pre] + [conv(a) for a in ls.values()]
         scripts.append(ops)
     return scripts
 
